@@ -240,18 +240,66 @@ func runFormatConsts(c *Ctx) {
 		for _, cd := range codecs {
 			found := false
 			for _, s := range fxStoresOf(fs, cd.field) {
-				if fxFuncOf(c.P, s.Val) == nil {
-					continue
+				// the stored value may be a local merged from the config's
+				// function and the default: look at every incoming value
+				for _, l := range (&fxAssume{}).leaves(s.Val, nil) {
+					if fxFuncOf(c.P, l) == nil {
+						continue
+					}
+					found = true
+					if !isDefault(l, cd.want) {
+						c.Violation(fn, c.P.InstrPos(s.St), "Mast."+cd.field+" default", "LoadMast's fallback for a nil RemoteConfig."+cd.cfg+" is not "+cd.want)
+						continue
+					}
+					c.OK(c.P.InstrPos(s.St), "LoadMast Mast."+cd.field+" default", "is "+cd.want+" (that it is installed exactly when the config has none is CTOR's clause)", false)
 				}
-				found = true
-				if !isDefault(s.Val, cd.want) {
-					c.Violation(fn, c.P.InstrPos(s.St), "Mast."+cd.field+" default", "LoadMast's fallback for a nil RemoteConfig."+cd.cfg+" is not "+cd.want)
-					continue
-				}
-				c.OK(c.P.InstrPos(s.St), "LoadMast Mast."+cd.field+" default", "is "+cd.want+" (that it is installed exactly when the config has none is CTOR's clause)", false)
 			}
 			if !found {
 				c.Violation(fn, c.P.Pos(fn.Pos()), "Mast."+cd.field+" default", "LoadMast never falls back on "+cd.want+" for Mast."+cd.field)
+			}
+		}
+		// the default key order / layer must be built over the tree's own
+		// marshaler (the value Mast.marshal ends up with), not over the raw
+		// config field or the JSON default
+		mstores := fxStoresOf(fs, "marshal")
+		sameAsMarshal := func(x ssa.Value) bool {
+			if len(mstores) == 1 && fxStripNoConv(x) == fxStripNoConv(mstores[0].Val) {
+				return true
+			}
+			u, ok := fxStripNoConv(x).(*ssa.UnOp)
+			if !ok || u.Op != token.MUL {
+				return false
+			}
+			b, p, ok := fxFieldAddr(u.X)
+			if !ok || p != "marshal" || b == nil || !ir.IsPtrToNamed(b.Type(), "Mast") {
+				return false
+			}
+			// read after all defaulting: some store precedes it on every
+			// path and none can follow it
+			pre := false
+			for _, s := range mstores {
+				if ir.InstrReaches(u, s.St) {
+					return false
+				}
+				if ir.Before(s.St, u) {
+					pre = true
+				}
+			}
+			return pre
+		}
+		for _, kf := range []struct{ field, maker string }{{"keyOrder", "DefaultKeyCompare"}, {"keyLayer", "DefaultLayer"}} {
+			for _, s := range fxStoresOf(fs, kf.field) {
+				for _, l := range (&fxAssume{}).leaves(s.Val, nil) {
+					call, callee := fxCallee(l)
+					if callee == nil || callee != c.P.MastFunc(kf.maker) {
+						continue
+					}
+					if sameAsMarshal(call.Call.Args[0]) {
+						c.OK(c.P.InstrPos(call), "LoadMast "+kf.maker+" argument", "the tree's marshaler (Mast.marshal after defaulting)", false)
+					} else {
+						c.Violation(fn, c.P.InstrPos(call), kf.maker+" argument", "LoadMast builds "+kf.maker+" over "+ir.Sym(call.Call.Args[0])+", not over the marshaler the tree ends up with (Mast.marshal after defaulting): fallback key order / layers use a different encoding than the tree")
+					}
+				}
 			}
 		}
 	}
@@ -1824,15 +1872,64 @@ func flushMarshalClosure(c *Ctx) (*ssa.Function, *ssa.Function) {
 			continue
 		}
 		for _, a := range ci.Common().Args {
-			if mc, ok := ir.ResolveCell(a).(*ssa.MakeClosure); ok {
-				if f, ok := mc.Fn.(*ssa.Function); ok && len(f.Params) == 1 {
-					return f, flush
-				}
+			if _, isSig := a.Type().Underlying().(*types.Signature); !isSig {
+				continue
+			}
+			if f := fxRealFunc(ir.ResolveCell(a)); f != nil && fxIfaceParam(f) != nil {
+				return f, flush
 			}
 		}
 	}
 	c.AnchorMissing("the marshal closure flush passes to (*mastNode).store")
 	return nil, flush
+}
+
+// fxRealFunc resolves a function value — a closure, a plain function, or a
+// method value (go/ssa: a closure over the synthetic `$bound` wrapper, whose
+// body just calls the method) — to the source function that runs.
+func fxRealFunc(v ssa.Value) *ssa.Function {
+	var f *ssa.Function
+	switch x := v.(type) {
+	case *ssa.MakeClosure:
+		f, _ = x.Fn.(*ssa.Function)
+	case *ssa.Function:
+		f = x
+	}
+	for i := 0; i < 3 && f != nil && f.Synthetic != ""; i++ {
+		var next *ssa.Function
+		n := 0
+		for _, b := range f.Blocks {
+			for _, ins := range b.Instrs {
+				if ci, ok := ins.(ssa.CallInstruction); ok {
+					n++
+					next = ci.Common().StaticCallee()
+				}
+			}
+		}
+		if n != 1 {
+			return nil
+		}
+		f = next
+	}
+	if f == nil || f.Blocks == nil {
+		return nil
+	}
+	return f
+}
+
+// fxIfaceParam is the (single) interface{}-typed parameter of fn: the value
+// handed to a marshal function.
+func fxIfaceParam(fn *ssa.Function) *ssa.Parameter {
+	var out *ssa.Parameter
+	for _, p := range fn.Params {
+		if it, ok := p.Type().Underlying().(*types.Interface); ok && it.NumMethods() == 0 {
+			if out != nil {
+				return nil
+			}
+			out = p
+		}
+	}
+	return out
 }
 
 // nodeFormatAssume assumes the value of the Mast.nodeFormat field read in fn.
@@ -1885,11 +1982,11 @@ func fromAssertedNode(fn *ssa.Function, v ssa.Value) bool {
 		switch x := v.(type) {
 		case *ssa.Extract:
 			if ta, ok := x.Tuple.(*ssa.TypeAssert); ok && x.Index == 0 {
-				return fxStripNoConv(ta.X) == ssa.Value(fn.Params[0]) && ir.IsNamed(ta.AssertedType, "mastNode")
+				return fxStripNoConv(ta.X) == ssa.Value(fxIfaceParam(fn)) && ir.IsNamed(ta.AssertedType, "mastNode")
 			}
 			return false
 		case *ssa.TypeAssert:
-			return fxStripNoConv(x.X) == ssa.Value(fn.Params[0]) && ir.IsNamed(x.AssertedType, "mastNode")
+			return fxStripNoConv(x.X) == ssa.Value(fxIfaceParam(fn)) && ir.IsNamed(x.AssertedType, "mastNode")
 		case *ssa.UnOp:
 			if x.Op != token.MUL {
 				return false
